@@ -85,6 +85,10 @@ pub fn case(ctx: &Ctx, kind: &str, params: &Value, counting: bool) -> Result<(),
 			let (ver, lf) = cases[params["i"].as_u64().unwrap_or(0) as usize % cases.len()];
 			check(ctx, &one_hot_model(ver, lf), "one_hot", counting)
 		}
+		"fixture" => match fixture_model(&dna_param(params)) {
+			Some((_, m)) => check(ctx, &m, "fixture", counting),
+			None => Ok(()),
+		},
 		_ => check(ctx, &model_from_dna(&dna_param(params), &cfg_for(ctx)), "dna", counting),
 	}
 }
@@ -118,6 +122,16 @@ pub fn run(ctx: &Ctx) -> usize {
 	let cfg = cfg_for(ctx);
 	if run_dna(ctx, "dna", ctx.n(40_000, 2_000_000), dna_max(ctx), |dna, counting| check(ctx, &model_from_dna(dna, &cfg), "dna", counting)).is_some() {
 		violations += 1;
+	}
+	if fixture_count() > 0 {
+		if run_dna(ctx, "fixture", ctx.n(4_000, 200_000), 512, |dna, counting| match fixture_model(dna) {
+			Some((_, m)) => check(ctx, &m, "fixture", counting),
+			None => Ok(()),
+		})
+		.is_some()
+		{
+			violations += 1;
+		}
 	}
 	violations
 }
